@@ -226,20 +226,24 @@ static const uint32_t VIOL_CAP_PER_CELL = 400;
 
 // record one violation; `cls` is the input class code of the violating lane,
 // `inputs` e.g. "a=0x..,b=0x.." ; got/exp as strings. kind: "value"|"trap"|"env"|...
-inline void viol(const char* kind, uint32_t cls, int lane, const std::string& inputs,
-                 const std::string& got, const std::string& exp) {
+inline void viol_as(const char* prop, const char* kind, uint32_t cls, int lane, const std::string& inputs,
+                    const std::string& got, const std::string& exp) {
     Cell& c = cell();
     c.viols++;
-    uint32_t& n = c.viol_by_class[cls];
+    uint32_t& n = c.viol_by_class[cls ^ (uint32_t)(hash_str(kind) << 12)];
     n++;
     if (n > VIOL_CAP_PER_CLASS || c.viol_logged >= VIOL_CAP_PER_CELL) return;
     c.viol_logged++;
     std::fprintf(logf(),
         "{\"ev\":\"viol\",\"kind\":\"%s\",\"prop\":\"%s\",\"type\":\"%s\",\"op\":\"%s\",\"cls\":%u,\"lane\":%d,"
         "\"in\":\"%s\",\"got\":\"%s\",\"exp\":\"%s\"}\n",
-        kind, c.prop.c_str(), c.type.c_str(), c.op.c_str(), cls, lane, jesc(inputs).c_str(),
+        kind, prop, c.type.c_str(), c.op.c_str(), cls, lane, jesc(inputs).c_str(),
         jesc(got).c_str(), jesc(exp).c_str());
     std::fflush(logf());
+}
+inline void viol(const char* kind, uint32_t cls, int lane, const std::string& inputs,
+                 const std::string& got, const std::string& exp) {
+    viol_as(cell().prop.c_str(), kind, cls, lane, inputs, got, exp);
 }
 
 inline void add_sample(const std::string& s) {
